@@ -19,6 +19,21 @@ def witnessF25a : Bytes :=
 private theorem witnessF25a_unstable : ∃ m, unpack noIdna witnessF25a = some m ∧
     ∀ b', pack noIdna m = some b' → unpack noIdna b' ≠ some m := by decide +kernel
 
+/-- the witness of F-C25b: question abcd CNAME, answer with CNAME data `99 c0 0c` (does not match the CNAME layout) -/
+def witnessF25b : Msg :=
+  { id := 1, query := false, opCode := 0, aa := false, tc := false, rd := true, ra := true, reserved := 0, rcode := 0,
+    questions := [⟨[0x61,0x62,0x63,0x64], 5, 1⟩], answers := [⟨[0x61,0x62,0x63,0x64], 5, 1, 60, [0x99, 0xc0, 0x0c]⟩],
+    authorities := [], additionals := [] }
+
+def witnessF25bOk : Bool :=
+  match pack noIdna witnessF25b with
+  | none => false
+  | some b => match unpack noIdna b with
+    | none => false
+    | some m' => decide (m' ≠ witnessF25b) && !rdataPlain 5 [0x99, 0xc0, 0x0c]
+
+private theorem witnessF25b_eval : witnessF25bOk = true := by decide +kernel
+
 /-! ### non-vacuity -/
 
 /-- example.com. TXT "\x02\xc0\x0c" and MX with preference 0xC00C: the former defect witnesses are well-formed … -/
@@ -138,6 +153,23 @@ theorem roundtrip (I : Idna) (m : Msg) (h : WellFormed I m) :
     show unpack I buf = some m
     simp only [unpack, unpackFrom, getU16_put ha h0, getU16_put hb h2, getU16_put hc h4, getU16_put hd h6,
       getU16_put he h8, getU16_put hf h10, hu1, hu2, hu3, hu4, hlen, if_true, f1, f2, f3, f4, f5, f6, f7, f8]
+
+/-- **C25 (round trip) fails outside `rdataPlain`** (F-C25b): record data of a name-bearing type that does not match the
+    type's layout and holds a resolvable pointer-like byte pair is "arbitrary record data", the message encodes, but
+    decodes to different data. `roundtrip`'s hypothesis `rdataPlain` excludes exactly such data and data with a
+    compression pointer in a name field. -/
+theorem roundtrip_fallback_counterexample :
+    ∃ m b m', pack noIdna m = some b ∧ unpack noIdna b = some m' ∧ m' ≠ m := by
+  have h := witnessF25b_eval
+  unfold witnessF25bOk at h
+  cases hp : pack noIdna witnessF25b with
+  | none => simp [hp] at h
+  | some b =>
+    cases hu : unpack noIdna b with
+    | none => simp [hp, hu] at h
+    | some m' =>
+      simp [hp, hu] at h
+      exact ⟨witnessF25b, b, m', hp, hu, h.1⟩
 
 /-- all resource records of a message -/
 def records (m : Msg) : List RR := m.answers ++ m.authorities ++ m.additionals
